@@ -11,6 +11,9 @@ extern "C" void verif_symbolic_phase(void);
 // Registers a pre-sized string/vector whose buffer is indexed symbolically: it must not grow in the symbolic phase.
 extern "C" void verif_nogrow(void* container);
 
+// PrintIsoUtc's snprintf: mode 0 = exact digits, 1 = exact length with placeholder digits (symbolic build only; no-ops natively)
+extern "C" void verif_snprintf_mode(int mode);
+extern "C" long verif_snprintf_arg(int index);
 namespace vh {
 // outcome codes of observation functions
 enum : int { OK = 0, NOT_LOADED = 1, PARSING = 2, SER_BASE = 10, OUT_OF_RANGE = 20, INVALID_ARGUMENT = 21, STD_EXCEPTION = 22, NON_STD = 23 };
@@ -26,6 +29,27 @@ template <class F> inline int outcome(F&& f) {
 	catch (const std::invalid_argument&) { return INVALID_ARGUMENT; }
 	catch (const std::exception&) { return STD_EXCEPTION; }
 	catch (...) { return NON_STD; }
+}
+}
+namespace vh {
+// calendar fields of an ISO text the library just printed: symbolic build = the arguments it passed to snprintf; native = parsed
+inline void iso_parts(const char* text, size_t n, long parts[6]) {
+#ifdef VERIF_SYMBOLIC
+	(void)text; (void)n;
+	for (int i = 0; i < 6; i++) parts[i] = verif_snprintf_arg(i);
+#else
+	for (int i = 0; i < 6; i++) parts[i] = -1;
+	size_t p = 0; bool neg = false;
+	if (p < n && text[p] == '+') p++;
+	if (p < n && text[p] == '-') { neg = true; p++; }
+	for (int f = 0; f < 6; f++) {
+		long v = 0; bool any = false;
+		while (p < n && text[p] >= '0' && text[p] <= '9') { v = v * 10 + (text[p] - '0'); p++; any = true; }
+		if (!any) return;
+		parts[f] = (f == 0 && neg) ? -v : v;
+		if (f < 5) p++;   // separator
+	}
+#endif
 }
 }
 #define VH_EXPORT extern "C" __attribute__((noinline))
